@@ -306,7 +306,7 @@ def run(ctx, only=None):
         for f in obs['failures']:
             ctx.violation(f'{job["id"]}|{f["kind"]}|{f["cls"]}', f'{job["id"]}: {f["message"]}: {f["kind"]}: {f["detail"]}',
                           dict(pack=job['id'], messages=[f['message']]))
-    if not only and total < 8000:
+    if not only and total < 8000 and not ctx.violations:
         raise HarnessError(f'C02 exploration collapsed: {total} round trips')
     ctx.extra['bound'] = f'reference matrix nesting depth <= 4; palette variants <= 3 (+ explicit defaults)'
 
